@@ -127,9 +127,9 @@ def evaluate(A, law, a, is_square):
     """Run one law on the real code.  Returns (ok, observed, expected) -- expected values are computed with
     the reference field only."""
     R = A.ref
-    x = A.make(a)
     one = R.from_int(1)
     try:
+        x = rf.limited(lambda: A.make(a))
         if law == 'is_sqr':
             got = rf.limited(x.is_sqr)
             return bool(got) == is_square, repr(got), repr(is_square)
@@ -157,8 +157,10 @@ def evaluate(A, law, a, is_square):
 
 def run_unit(part, unit):
     spec = unit['spec']
-    F = rf.make_field(spec)
-    A = rf.Adapter(F)
+    A = rf.guarded_adapter(part, 'C21', spec, dict(spec=spec, law='is_sqr', a=0, is_square=True))
+    if A is None:
+        part.caps.append('a unit was abandoned: field construction failed (see violation)')
+        return
     R = A.ref
     name = rf.field_name(spec)
     br = branch(A)
@@ -173,7 +175,7 @@ def run_unit(part, unit):
             part.outcomes.add((law, br, obs if law == 'is_sqr' or a == 0 else 'value'))
             if not ok:
                 hang = obs.startswith('raised Hang')
-                part.violation(f'C21:{law}:{br}' + (':zero' if a == 0 else '') + (':hang' if hang else ''),
+                rf.note_violation(part, f'C21:{law}:{br}' + (':zero' if a == 0 else '') + (':hang' if hang else ''),
                                f'{name}: {law}(code {a}; square={is_square}): observed {obs}, expected {exp}',
                                dict(spec=spec, law=law, a=a, is_square=is_square))
                 if hang:
@@ -181,7 +183,7 @@ def run_unit(part, unit):
                     return
             elif not sampled and law == 'sqrt_inv' and a > 2:
                 sampled = True
-                part.sample(dict(field=name, branch=br, law=law, a=a, observed=obs))
+                rf.note_sample(part, dict(field=name, branch=br, law=law, a=a, observed=obs))
         if not is_square:      # undocumented territory: tally only
             try:
                 r = rf.limited(A.make(a).sqrt)
@@ -223,6 +225,11 @@ def jobs(tier, seed):
     return [dict(units=b[1]) for b in bins if b[1]]
 
 
+def coverage_extra(tier, seed, total):
+    # representative case per violation key: prefer genuine (degree >= 2 or prime) fields over degree-1 extensions
+    return rf.finalize(total, prefer=lambda d: int(d['spec'].get('mod') is not None and len(d['spec']['mod']) <= 2))
+
+
 def run_job(job):
     part = Part()
     rf.arm_watchdog()
@@ -234,9 +241,11 @@ def run_job(job):
 def replay(case):
     part = Part()
     rf.arm_watchdog()
-    A = rf.Adapter(rf.make_field(case['spec']))
+    A = rf.guarded_adapter(part, 'C21', case['spec'], case)
+    if A is None:
+        return part
     ok, obs, exp = evaluate(A, case['law'], case['a'], case['is_square'])
     if not ok:
-        part.violation(f'C21:{case["law"]}:{branch(A)}' + (':zero' if case['a'] == 0 else ''),
+        rf.note_violation(part, f'C21:{case["law"]}:{branch(A)}' + (':zero' if case['a'] == 0 else ''),
                        f'{rf.field_name(case["spec"])}: {case["law"]}(code {case["a"]}): observed {obs}, expected {exp}', case)
     return part
